@@ -28,13 +28,29 @@ def base_cases(seed, tier):
     for c in c09.cases(seed + 5, 'quick' if tier == 'quick' else 'thorough'):
         if len(out) >= n:
             break
-        if c['kind'] == 'seq' or c['kind'] == 'F':
+        if c['kind'] == 'seq':
             continue
+        if any(T.spec_at(t, q)['name'].startswith('_tmp_') for t in c['tops'] for q in T.all_paths(t) if q):
+            continue          # user nodes called like the scratch name of a sibling: outside the fault model's domain (see C09 / C05)
         ft, rt = c['tops']
-        if rng.random() < 0.2:
+        if rng.random() < 0.3:
             arrs = [p for p in T.all_paths(rt) if T.spec_at(rt, p)['cls'] == 'Array']
-            if arrs:   # a natural failure deep in the runtime tree
-                T.spec_at(rt, rng.choice(arrs))['kids'].append({'cls': 'Node', 'name': 'data', 'tok': 0, 'rank': 0, 'mds': [], 'kids': []})
+            if arrs:   # a natural failure deep in the runtime tree: a child called like one of the Array's own datasets
+                T.spec_at(rt, rng.choice(arrs))['kids'].append({'cls': 'Node', 'name': rng.choice(['data', 'dim0']), 'tok': 0, 'rank': 0, 'mds': [], 'kids': []})
+        if c['kind'] == 'F' and rng.random() < 0.6 and rt['kids']:
+            # a foreign tree placed under an emdpath whose target already holds a child of that name: the save fails on the name
+            ep = (c['steps'][1].get('emdpath') or '').lstrip('/').split('/')[1:]
+            try:
+                tgt = T.spec_at(ft, ep)
+                if tgt['kids']:
+                    kid, new = rng.choice(rt['kids']), rng.choice(tgt['kids'])['name']
+                    if new not in {k['name'] for k in rt['kids']}:
+                        old = kid['name']; kid['name'] = new
+                        tp1 = c['steps'][1]['tp']
+                        if tp1 and tp1[0] == old:
+                            c['steps'][1]['tp'] = [new] + list(tp1[1:])
+            except Exception:
+                pass
         other = T.rand_tree(rng, 'q', 2, names=['a', 'b'], md_p=0.5)
         st = dict(c['steps'][1])
         old_paths = ['/'.join(['r'] + p) for p in T.all_paths(ft)] + ['/'.join(['q'] + p) for p in T.all_paths(other)]
@@ -43,6 +59,46 @@ def base_cases(seed, tier):
             {'op': 'save', 'file': 0, 'top': 0, 'tp': [], 'mode': 'w', 'tree': True},
             {'op': 'save', 'file': 0, 'top': 2, 'tp': [], 'mode': 'a', 'tree': True},
             st], 'kind': c['kind']})
+    # saves that fail on a name already taken in the group being written to: a new child of an Array called like one of the Array's
+    # own datasets; a foreign tree placed under an emdpath whose target already holds a child of that name
+    def nd(name, cls='Node', kids=()):
+        return {'cls': cls, 'name': name, 'tok': T.fresh_tok() if cls != 'Node' else 0, 'rank': 1 if cls == 'Array' else 0,
+                'mds': [['m1', T.fresh_tok()]] if rng.random() < 0.4 else [], 'kids': list(kids)}
+    for i in range(max(4, n // 5)):
+        ft = {'cls': 'Root', 'name': 'r', 'tok': 0, 'rank': 0, 'mds': [], 'kids': [
+            nd('arr', 'Array', [nd('x', rng.choice(['Node', 'PointList']))]), nd('keep', rng.choice(['Node', 'Array']), [nd('sub', 'PointList')])]}
+        other = T.rand_tree(rng, 'q', 2, names=['a', 'b'], md_p=0.5)
+        old_paths = ['/'.join(['r'] + p_) for p_ in T.all_paths(ft)] + ['/'.join(['q'] + p_) for p_ in T.all_paths(other)]
+        if i % 2 == 0:
+            rt = copy.deepcopy(ft)
+            arr = rt['kids'][0]
+            arr['kids'] = ([nd('fresh')] if rng.random() < 0.5 else []) + arr['kids'] + [nd(rng.choice(['data', 'dim0']), rng.choice(['Node', 'Array']))] + ([nd('later')] if rng.random() < 0.5 else [])
+            st = {'op': 'save', 'file': 0, 'top': 1, 'tp': rng.choice([[], ['arr']]), 'mode': rng.choice(['a', 'append', 'ao']), 'tree': rng.choice([True, None]), 'probe': old_paths}
+            kind = 'A'
+        else:
+            rt = {'cls': 'Root', 'name': 'other', 'tok': 0, 'rank': 0, 'mds': [], 'kids': ([nd('fresh')] if rng.random() < 0.5 else []) + [nd(rng.choice(['keep', 'arr']), rng.choice(['Node', 'Array']), [nd('deep')])]}
+            tp = rng.choice([[], [rt['kids'][-1]['name']]])
+            st = {'op': 'save', 'file': 0, 'top': 1, 'tp': tp, 'mode': rng.choice(['a', 'ao']), 'tree': True if tp else rng.choice([True, None]), 'emdpath': 'r', 'probe': old_paths}
+            kind = 'F'
+        out.append({'tops': [ft, rt, other], 'steps': [
+            {'op': 'save', 'file': 0, 'top': 0, 'tp': [], 'mode': 'w', 'tree': True},
+            {'op': 'save', 'file': 0, 'top': 2, 'tp': [], 'mode': 'a', 'tree': True},
+            st], 'kind': kind, 'oracle_only': True})
+    # list saves into a file that already holds the shared root of an earlier list save (and another tree): a failing second list
+    # save must leave the first list's items where they were
+    for i in range(max(2, n // 6)):
+        mk = lambda nm, cls: {'cls': cls, 'name': nm, 'tok': T.fresh_tok() if cls != 'Node' else 0, 'rank': 1 if cls == 'Array' else 0,
+                              'mds': [['m1', T.fresh_tok()]] if rng.random() < 0.5 else [], 'kids': []}
+        u0, u1 = mk('first', rng.choice(['Array', 'Node', 'PointList'])), mk('second', rng.choice(['Array', 'Node', 'PointList']))
+        other = T.rand_tree(rng, 'q', 2, names=['a', 'b'], md_p=0.5)
+        items2 = [{'kind': 'top', 'top': 1, 'tp': []}] + ([{'kind': 'arr', 'tok': T.fresh_tok(), 'rank': 1}] if rng.random() < 0.6 else []) + \
+            ([{'kind': 'top', 'top': 2, 'tp': [other['kids'][0]['name']]}] if other['kids'] and rng.random() < 0.4 else [])
+        rng.shuffle(items2)
+        out.append({'tops': [u0, u1, other], 'steps': [
+            {'op': 'save', 'file': 0, 'input': {'kind': 'list', 'items': [{'kind': 'top', 'top': 0, 'tp': []}, {'kind': 'arr', 'tok': T.fresh_tok(), 'rank': 2}]}, 'mode': 'w', 'tree': True},
+            {'op': 'save', 'file': 0, 'top': 2, 'tp': [], 'mode': 'a', 'tree': True},
+            {'op': 'save', 'file': 0, 'input': {'kind': rng.choice(['list', 'tuple']), 'items': items2}, 'mode': rng.choice(['a', 'ao', 'append']), 'tree': True,
+             'probe': ['root_savedlist/first', 'root_savedlist/array_0'] + ['/'.join(['q'] + p) for p in T.all_paths(other)]}], 'kind': 'L'})
     return out
 
 
@@ -96,7 +152,7 @@ def emit(cases_, results, shard=150):
     sel = []
     for i, (c, r) in enumerate(zip(cases_, results)):
         st = c['steps'][2]
-        if c['kind'] == 'A' and not st['tp'] and st.get('emdpath') is None and st['tree'] is not False and len(r) > 2 \
+        if c['kind'] == 'A' and not c.get('oracle_only') and not st.get('tp', ['x']) and st.get('emdpath') is None and st['tree'] is not False and len(r) > 2 \
                 and not r[0]['raised'] and not r[1]['raised'] and r[1]['slot'][0] == 'H5' and r[2]['slot'][0] == 'H5':
             sel.append(i)
     shards = []
@@ -125,7 +181,7 @@ def oracle(case, obs):
         return None
     before, after = obs[1]['slot'], o['slot']
     ao = st['mode'] in AO
-    where = f"mode={st['mode']} tree={st['tree']} tp=/{'/'.join(st['tp'])} emdpath={st.get('emdpath')} fault={st.get('fault')} ({o.get('fault_at')})"
+    where = f"mode={st['mode']} tree={st['tree']} tp=/{'/'.join(st.get('tp', ['<list>']))} emdpath={st.get('emdpath')} fault={st.get('fault')} ({o.get('fault_at')})"
     if after[0] != 'H5':
         return {'key': 'file-destroyed', 'what': where + ': file is no longer HDF5'}
     names = {T.spec_at(t, p)['name'] for t in case['tops'] for p in T.all_paths(t)}
@@ -134,7 +190,19 @@ def oracle(case, obs):
         return {'key': 'scratch-left-behind', 'what': where + f': scratch groups left: {scratch[:3]}'}
     if FA.tree_map(after, 'q') != FA.tree_map(before, 'q'):
         return {'key': 'untargeted-tree-changed', 'what': where + ': the tree q was not targeted but changed'}
-    F, Aft, R = FA.tree_map(before, 'r'), FA.tree_map(after, 'r'), FA.runtime_map(rt)
+    if case.get('kind') == 'L':
+        # a failing list save: the shared root of the earlier list save must still hold what it held (nodes may have been ADDED)
+        F, Aft = FA.tree_map(before, 'root_savedlist'), FA.tree_map(after, 'root_savedlist')
+        if Aft is None:
+            return {'key': 'tree-gone', 'what': where + ': the tree root_savedlist of the earlier list save is gone'}
+        for p, c in F.items():
+            if p not in Aft:
+                return {'key': 'existing-node-lost', 'what': where + f': node root_savedlist/{"/".join(p)} is gone'}
+            if p and Aft[p][:3] != c[:3] and st['mode'] not in AO:
+                return {'key': 'existing-node-changed', 'what': where + f': node root_savedlist/{"/".join(p)} changed'}
+        F, Aft, R = {}, {}, {}
+    else:
+        F, Aft, R = FA.tree_map(before, 'r'), FA.tree_map(after, 'r'), FA.runtime_map(rt)
     if Aft is None:
         return {'key': 'tree-gone', 'what': where}
     for p, c in F.items():
